@@ -1164,11 +1164,14 @@ def scen_reuse(S, rng, fam, p):
         pos += n
         prev = (prev + data)[-(K64 + 100):]
         return a, data
+    pmid = p.get("pmid", 0.3); pbig = p.get("pbig", 0.08)
     def size_of_class():
         c = rng.random()
-        if c < 0.5: return rng.choice([0, 1, 12, 13, 14, 64, 300, 1000, 4095, rng.randrange(0, 4096)])
-        if c < 0.85: return rng.choice([4096, 4097, 8000, 20000, 65535 - 12, 65546, rng.randrange(4096, 65547)])
-        return rng.choice([65547, 65548, 70000]) if big or rng.random() < 0.3 else 65547
+        if c < pbig: return rng.choice([65547, 65548, 70000])
+        if c < pbig + pmid:
+            if rng.random() < 0.7: return rng.choice([4096, 4097, 5000, 8000, rng.randrange(4096, 9000)])
+            return rng.choice([20000, 65535 - 12, 65546, rng.randrange(4096, 65547)])
+        return rng.choice([0, 1, 12, 13, 14, 64, 300, 1000, 4095, rng.randrange(0, 4096)])
     i = 0
     while i < nops:
         i += 1
